@@ -106,6 +106,7 @@ func (s *State) ExpandMacros(program ast.Node) ast.Node {
 		// The body is evaluated under the session's depth limit (a limit of zero fails anything but a bare quote()),
 		// prints where the session prints and may call functions (which need a cache to be remembered in).
 		evalEnv.MaxDepth = s.MaxDepth
+		evalEnv.Context = s.Context // and under its deadline.
 		evalEnv.Out, evalEnv.LogOut, evalEnv.NoLog = s.Out, s.LogOut, s.NoLog
 		evalEnv.cache = NewCache()
 
